@@ -280,67 +280,9 @@ Proof.
   intros [[x y] z] H. pose proof (H AX); pose proof (H AY); pose proof (H AZ). simpl in *. lia.
 Qed.
 
-Lemma aniso_reduced_nonneg : forall d t l r a, aniso_reduced d t l = Ok r -> 0 <= get3 a r.
-Proof.
-  intros d t l r a H. unfold aniso_reduced in H.
-  destruct (0 <? sum3 (aniso0 d l) - 3 * t).
-  - destruct (count_nz (aniso0 d l) =? 0); [discriminate|].
-    match type of H with (if ?c then _ else _) = _ => destruct c end; [|discriminate].
-    inversion H; subst. rewrite get3_map3. lia.
-  - inversion H; subst. apply aniso0_nonneg.
-Qed.
+Lemma sum3_sub_at : forall a delta v, sum3 (sub_at a delta v) = sum3 v - delta.
+Proof. intros a delta [[x y] z]; destruct a; simpl; lia. Qed.
 
-Lemma aniso_reduced_sum : forall d t l r, aniso_reduced d t l = Ok r -> sum3 r <= 3 * t.
-Proof.
-  intros d t l r H. unfold aniso_reduced in H.
-  destruct (Z.ltb_spec 0 (sum3 (aniso0 d l) - 3 * t)) as [He|He].
-  - destruct (count_nz (aniso0 d l) =? 0); [discriminate|].
-    match type of H with (if ?c then _ else _) = _ => destruct c eqn:Hc end; [|discriminate].
-    apply Z.leb_le in Hc. inversion H; subst. exact Hc.
-  - inversion H; subst. lia.
-Qed.
-
-(* the second and third assertions of downscale_info can never fail: after the
-   first one, base >= 0 and |3 base + S - 3 t| <= 1 are arithmetic facts *)
-Lemma chunk_exponents_of_reduced : forall d t l r, 0 <= t ->
-  aniso_reduced d t l = Ok r ->
-  chunk_exponents d t l = Ok (map3 (fun f => t - (sum3 r + 1) / 3 + f) r).
-Proof.
-  intros d t l r Ht H. unfold chunk_exponents. rewrite H. cbn [bind].
-  pose proof (aniso_reduced_sum _ _ _ _ H) as Hs.
-  pose proof (sum3_nonneg r (fun a => aniso_reduced_nonneg _ _ _ _ a H)) as Hn.
-  destruct (Z.ltb_spec (t - (sum3 r + 1) / 3) 0) as [Hb|Hb]; [exfalso; lia|].
-  match goal with |- (if ?c then _ else _) = _ => destruct c eqn:Hc end; [reflexivity|].
-  exfalso. apply Z.leb_gt in Hc. destruct r as [[x y] z]. cbn [sum3 map3] in *. lia.
-Qed.
-
-Lemma chunk_exponents_ok_iff : forall d t l, 0 <= t ->
-  ((exists e, chunk_exponents d t l = Ok e) <-> (exists r, aniso_reduced d t l = Ok r)).
-Proof.
-  intros d t l Ht. split.
-  - intros [e He]. unfold chunk_exponents in He.
-    destruct (aniso_reduced d t l) as [r| | | | | |c]; simpl in He; try discriminate.
-    exists r; reflexivity.
-  - intros [r Hr]. eexists. apply chunk_exponents_of_reduced; eassumption.
-Qed.
-
-(* chunk sizes are 2^e with e >= 0, and the exponents sum to 3t up to 1 *)
-Lemma chunk_volume : forall d t l e, 0 <= t -> chunk_exponents d t l = Ok e ->
-  (forall a, 0 <= get3 a e) /\ Z.abs (sum3 e - 3 * t) <= 1.
-Proof.
-  intros d t l e Ht H.
-  destruct (proj1 (chunk_exponents_ok_iff d t l Ht) (ex_intro _ e H)) as [r Hr].
-  rewrite (chunk_exponents_of_reduced _ _ _ _ Ht Hr) in H. inversion H; subst e. clear H.
-  pose proof (aniso_reduced_sum _ _ _ _ Hr) as Hs.
-  pose proof (sum3_nonneg r (fun a => aniso_reduced_nonneg _ _ _ _ a Hr)) as Hn.
-  split.
-  - intro a. rewrite get3_map3. pose proof (aniso_reduced_nonneg _ _ _ _ a Hr). lia.
-  - destruct r as [[x y] z]. cbn [sum3 map3] in *. lia.
-Qed.
-
-(* the only way the generator can die inside downscale_info is the first
-   assertion; in particular the division by the number of non-zero factors
-   is never a division by zero *)
 Lemma count_nz_pos : forall v, (forall a, 0 <= get3 a v) -> 0 < sum3 v -> 0 < count_nz v.
 Proof.
   intros [[x y] z] H Hs. pose proof (H AX); pose proof (H AY); pose proof (H AZ).
@@ -348,24 +290,117 @@ Proof.
   destruct (Z.eqb_spec x 0); destruct (Z.eqb_spec y 0); destruct (Z.eqb_spec z 0); lia.
 Qed.
 
-Lemma chunk_exponents_outcomes : forall d t l, 0 <= t ->
-  (exists e, chunk_exponents d t l = Ok e) \/ chunk_exponents d t l = Crash AssertionError.
+(* since /repo 1758f7a the first assertion cannot fail either: whatever the
+   reduction left above 3t is removed from the largest factor *)
+Lemma aniso_reduced_total : forall d t l, 0 <= t ->
+  exists r, aniso_reduced d t l = Ok r /\ sum3 r <= 3 * t.
 Proof.
-  intros d t l Ht.
-  destruct (aniso_reduced d t l) as [r| | | | | |c] eqn:Hr.
-  - left. eexists. apply chunk_exponents_of_reduced; eassumption.
-  - exfalso. unfold aniso_reduced in Hr. repeat match type of Hr with (if ?c then _ else _) = _ => destruct c end; discriminate.
-  - exfalso. unfold aniso_reduced in Hr. repeat match type of Hr with (if ?c then _ else _) = _ => destruct c end; discriminate.
-  - exfalso. unfold aniso_reduced in Hr. repeat match type of Hr with (if ?c then _ else _) = _ => destruct c end; discriminate.
-  - exfalso. unfold aniso_reduced in Hr. repeat match type of Hr with (if ?c then _ else _) = _ => destruct c end; discriminate.
-  - exfalso. unfold aniso_reduced in Hr. repeat match type of Hr with (if ?c then _ else _) = _ => destruct c end; discriminate.
-  - right. unfold chunk_exponents. rewrite Hr. cbn [bind].
-    unfold aniso_reduced in Hr.
-    destruct (Z.ltb_spec 0 (sum3 (aniso0 d l) - 3 * t)) as [He|He]; [|discriminate].
-    destruct (Z.eqb_spec (count_nz (aniso0 d l)) 0) as [Hz|Hz].
+  intros d t l Ht. unfold aniso_reduced.
+  destruct (Z.ltb_spec 0 (sum3 (aniso0 d l) - 3 * t)) as [He|He].
+  - destruct (Z.eqb_spec (count_nz (aniso0 d l)) 0) as [Hz|Hz].
     + exfalso. pose proof (count_nz_pos (aniso0 d l) (aniso0_nonneg d l) ltac:(lia)). lia.
-    + match type of Hr with (if ?c then _ else _) = _ => destruct c end; [discriminate|].
-      inversion Hr; reflexivity.
+    + set (a' := map3 _ (aniso0 d l)).
+      destruct (Z.ltb_spec (3 * t) (sum3 a')) as [Hc|Hc].
+      * rewrite sum3_sub_at.
+        replace (sum3 a' - (sum3 a' - 3 * t) <=? 3 * t) with true by (symmetry; apply Z.leb_le; lia).
+        eexists. split; [reflexivity|]. rewrite sum3_sub_at. lia.
+      * replace (sum3 a' <=? 3 * t) with true by (symmetry; apply Z.leb_le; lia).
+        eexists. split; [reflexivity | lia].
+  - eexists. split; [reflexivity | lia].
+Qed.
+
+Lemma aniso_reduced_sum : forall d t l r, 0 <= t -> aniso_reduced d t l = Ok r -> sum3 r <= 3 * t.
+Proof.
+  intros d t l r Ht H. destruct (aniso_reduced_total d t l Ht) as [r' [E Hs]].
+  rewrite H in E. inversion E; subst. exact Hs.
+Qed.
+
+(* arithmetic core of the reduction on a triple with one zero entry (the axis
+   of largest delay has anisotropy factor 0) *)
+Lemma reduce_nonneg_core : forall x y z t,
+  0 <= x -> 0 <= y -> 0 <= z -> 0 <= t -> (x = 0 \/ y = 0 \/ z = 0) ->
+  0 < x + y + z - 3 * t ->
+  let v := (x, y, z) in
+  let red := ceil_div (sum3 v - 3 * t) (count_nz v) in
+  let a' := map3 (fun f => Z.max (f - red) 0) v in
+  let a'' := if 3 * t <? sum3 a' then sub_at (argmax_first a') (sum3 a' - 3 * t) a' else a' in
+  forall a, 0 <= get3 a a''.
+Proof.
+  intros x y z t Hx Hy Hz Ht H0 HE v red a' a''. subst a'' a' red v.
+  unfold count_nz, ceil_div. cbn [sum3 map3].
+  destruct (Z.eqb_spec x 0) as [Ex|Ex]; destruct (Z.eqb_spec y 0) as [Ey|Ey];
+    destruct (Z.eqb_spec z 0) as [Ez|Ez]; try (exfalso; lia);
+    (* the number of non-zero factors is now a closed term: make it a literal *)
+    match goal with |- context [(_ - 1) / ?k] => let k' := eval cbv in k in change k with k' end;
+    intro a; unfold argmax_first; cbn [map3 sum3];
+    repeat match goal with
+           | |- context [if ?c then _ else _] => destruct c eqn:?
+           end;
+    repeat match goal with
+           | H : (_ <? _) = true |- _ => apply Z.ltb_lt in H
+           | H : (_ <? _) = false |- _ => apply Z.ltb_ge in H
+           | H : (_ && _) = true |- _ => apply andb_true_iff in H; destruct H
+           | H : (_ && _) = false |- _ => apply andb_false_iff in H
+           | H : (_ <=? _) = true |- _ => apply Z.leb_le in H
+           | H : (_ <=? _) = false |- _ => apply Z.leb_gt in H
+           end;
+    destruct a; cbn [get3 sub_at argmax_first sum3] in *; lia.
+Qed.
+
+Lemma aniso0_has_zero : forall d l, 0 <= l -> exists a, get3 a (aniso0 d l) = 0.
+Proof.
+  intros d l Hl. destruct (max3_attained d) as [a Ha]. exists a.
+  unfold aniso0. rewrite get3_map3, Ha. lia.
+Qed.
+
+Lemma aniso_reduced_nonneg : forall d t l r a, 0 <= t -> 0 <= l ->
+  aniso_reduced d t l = Ok r -> 0 <= get3 a r.
+Proof.
+  intros d t l r a Ht Hl H. unfold aniso_reduced in H.
+  destruct (Z.ltb_spec 0 (sum3 (aniso0 d l) - 3 * t)) as [He|He].
+  - destruct (count_nz (aniso0 d l) =? 0); [discriminate|].
+    match type of H with (if ?c then _ else _) = _ => destruct c end; [|discriminate].
+    inversion H; subst r. clear H.
+    destruct (aniso0_has_zero d l Hl) as [a0 Ha0].
+    pose proof (aniso0_nonneg d l) as Hn.
+    destruct (aniso0 d l) as [[x y] z] eqn:Ev.
+    apply (reduce_nonneg_core x y z t (Hn AX) (Hn AY) (Hn AZ) Ht).
+    + destruct a0; simpl in Ha0; auto.
+    + cbn [sum3] in He. lia.
+  - inversion H; subst. apply aniso0_nonneg.
+Qed.
+
+(* no assertion of downscale_info can fail: after the reduction the sum is at
+   most 3t, hence base >= 0, and |3 base + S - 3 t| <= 1 is arithmetic *)
+Lemma chunk_exponents_of_reduced : forall d t l r, 0 <= t ->
+  aniso_reduced d t l = Ok r ->
+  chunk_exponents d t l = Ok (map3 (fun f => t - (sum3 r + 1) / 3 + f) r).
+Proof.
+  intros d t l r Ht H. unfold chunk_exponents. rewrite H. cbn [bind].
+  pose proof (aniso_reduced_sum _ _ _ _ Ht H) as Hs.
+  destruct (Z.ltb_spec (t - (sum3 r + 1) / 3) 0) as [Hb|Hb]; [exfalso; lia|].
+  match goal with |- (if ?c then _ else _) = _ => destruct c eqn:Hc end; [reflexivity|].
+  exfalso. apply Z.leb_gt in Hc. destruct r as [[x y] z]. cbn [sum3 map3] in *. lia.
+Qed.
+
+Lemma no_assertion_can_fail : forall d t l, 0 <= t -> exists e, chunk_exponents d t l = Ok e.
+Proof.
+  intros d t l Ht. destruct (aniso_reduced_total d t l Ht) as [r [Hr _]].
+  eexists. apply chunk_exponents_of_reduced; eassumption.
+Qed.
+
+(* chunk sizes are 2^e with e >= 0, and the exponents sum to 3t up to 1 *)
+Lemma chunk_volume : forall d t l e, 0 <= t -> 0 <= l -> chunk_exponents d t l = Ok e ->
+  (forall a, 0 <= get3 a e) /\ Z.abs (sum3 e - 3 * t) <= 1.
+Proof.
+  intros d t l e Ht Hl H.
+  destruct (aniso_reduced_total d t l Ht) as [r [Hr Hs]].
+  rewrite (chunk_exponents_of_reduced _ _ _ _ Ht Hr) in H. inversion H; subst e. clear H.
+  assert (Hn : forall a, 0 <= get3 a r) by (intro a; exact (aniso_reduced_nonneg _ _ _ _ a Ht Hl Hr)).
+  pose proof (sum3_nonneg r Hn) as Hsn.
+  split.
+  - intro a. rewrite get3_map3. specialize (Hn a). lia.
+  - destruct r as [[x y] z]. cbn [sum3 map3] in *. lia.
 Qed.
 
 (* ---------- number of levels ---------- *)
@@ -433,6 +468,17 @@ Proof.
   rewrite get3_zip3 in Hm. replace (get3 a (0, 0, 0)) with 0 in * by (destruct a; reflexivity). lia.
 Qed.
 
+(* the integer core never fails on positive sizes *)
+Lemma scales_core_total : forall full d t ms, 0 <= t -> (forall a, 0 < get3 a full) ->
+  exists l, scales_core full d t ms = Ok l.
+Proof.
+  intros full d t ms Ht Hf. unfold scales_core.
+  replace (forall3 (fun s => 0 <? s) full) with true
+    by (symmetry; apply forall3_spec; intro a; apply Z.ltb_lt; apply Hf).
+  cbn [negb]. apply mapM_all_ok. intros k _. unfold scale_core_at.
+  destruct (no_assertion_can_fail d t k Ht) as [e He]. rewrite He. cbn [bind]. eexists; reflexivity.
+Qed.
+
 (* the code's level count stops early for anisotropic volumes: 10 x 10 x 1000
    voxels, delays (0, 0, 7) (resolutions 1 : 1 : 100), target 16 *)
 Lemma last_fits_refuted :
@@ -457,27 +503,3 @@ Qed.
 
 Example last_fits_example : last_fits_guard (1000, 1000, 10) (0, 0, 7) 4 0 = true.
 Proof. vm_compute. reflexivity. Qed.
-
-(* no assertion can fail when the total anisotropy (in octaves) of the full
-   resolution is at most 3 * log2(target): the "excess" branch is never taken *)
-Lemma aniso0_antitone : forall d l a, 0 <= l -> get3 a (aniso0 d l) <= get3 a (aniso0 d 0).
-Proof. intros d l a Hl. unfold aniso0. rewrite !get3_map3. lia. Qed.
-
-Lemma sum3_le : forall v w, (forall a, get3 a v <= get3 a w) -> sum3 v <= sum3 w.
-Proof.
-  intros [[x y] z] [[x' y'] z'] H.
-  pose proof (H AX); pose proof (H AY); pose proof (H AZ). simpl in *. lia.
-Qed.
-
-Lemma no_assert_on_guard : forall d t l, 0 <= t -> 0 <= l ->
-  sum3 (aniso0 d 0) <= 3 * t -> exists e, chunk_exponents d t l = Ok e.
-Proof.
-  intros d t l Ht Hl Hs. apply chunk_exponents_ok_iff; [assumption|].
-  unfold aniso_reduced.
-  pose proof (sum3_le (aniso0 d l) (aniso0 d 0) (fun a => aniso0_antitone d l a Hl)) as Hle.
-  destruct (Z.ltb_spec 0 (sum3 (aniso0 d l) - 3 * t)); [lia|]. eexists; reflexivity.
-Qed.
-
-Lemma assert_level_refuted :
-  sum3 (aniso0 (0, 10, 11) 0) > 3 * 1 /\ chunk_exponents (0, 10, 11) 1 0 = Crash AssertionError.
-Proof. vm_compute. split; reflexivity. Qed.
